@@ -1,6 +1,6 @@
 (* Repr.v — macros/from_repr.rs (FromRepr) and rustc's discriminant rule. *)
 Require Export Strum.Model.Meta.
-Open Scope Z_scope.
+Local Open Scope Z_scope.
 
 (* range of the discriminant type on a 64-bit target *)
 Definition repr_range (r : repr) : Z * Z :=
